@@ -21,10 +21,15 @@ items[_i_new[0]] = Fn(TPKT, "new", impl=r"Client<S>", mod="tpkt", props=["C02"],
 # ---- nla interfaces
 A(Item(SSPI, "trait", "GenericSecurityService", mod="sspi"))
 A(Item(SSPI, "trait", "AuthenticationProtocol", mod="sspi"))
+# the abstract DER functions of unit cssp (declarations only) so that cssp_connect's completion clause can be carried upwards with the identical text
+from specs import cssp as _CS
+A(next(x for x in _CS.UNIT.items if x.kind == "raw" and x.name == "cssp_der_specs"))
+CREDSSP_DONE = next(c.text for f in _CS.UNIT.items if f.kind == "fn" and f.name == "cssp_connect" for c in f.ensures if c.cid == "credssp-done")
 A(Stub(CSSP, "cssp_connect", mod="cssp", verified_in="cssp",
        requires=["old(link).tls()"],
        ensures=["final(link).tls() && final(link).cert_checked() == old(link).cert_checked() && final(link).peer_key() == old(link).peer_key()",
-                "is_prefix(old(link).written(), final(link).written())", "is_suffix(final(link).rest(), old(link).rest())"]))
+                "is_prefix(old(link).written(), final(link).written())", "is_suffix(final(link).rest(), old(link).rest())",
+                CREDSSP_DONE]))
 
 # ---- link / tpkt upgrade path
 # real body, against the native-tls builder / connector stand-ins of prelude/tls.rs (the certificate-validation switch is threaded, a TLS link cannot be upgraded twice)
@@ -38,8 +43,12 @@ impl<S: Read + Write + Duplex> Client<S> {
 """, mod="tpkt", name="tpkt_specs_tls"))
 A(Fn(TPKT, "start_ssl", impl=r"Client<S>", mod="tpkt", props=["C02"],
      ensures=[("C02", "tls-up", "r is Ok ==> !self.tls() && r->Ok_0.tls() && r->Ok_0.cert_checked() == check_certificate && r->Ok_0.written() == self.written() && r->Ok_0.rest() == self.rest()")]))
-A(Fn(TPKT, "start_nla", impl=r"Client<S>", mod="tpkt", props=["C02", "C01"],
-     ensures=[("C02", "tls-before-credssp", "r is Ok ==> !self.tls() && r->Ok_0.tls() && r->Ok_0.cert_checked() == check_certificate && is_prefix(self.written(), r->Ok_0.written())")]))
+A(Fn(TPKT, "start_nla", impl=r"Client<S>", mod="tpkt", props=["C02", "C01", "C03"],
+     hints=[(r"cssp_connect\(&mut link", 1, "let ghost w0 = link.written(); proof { assert(w0 == self.written()); }", "before")],
+     ensures=[("C02", "tls-before-credssp", "r is Ok ==> !self.tls() && r->Ok_0.tls() && r->Ok_0.cert_checked() == check_certificate && is_prefix(self.written(), r->Ok_0.written())"),
+              # C01: the layer is handed on (Ok) only when the CredSSP exchange itself succeeded: its three messages are on the link; a refusal
+              # by cssp_connect (failed key validation, bad token ...) is never turned into Ok
+              ("C01,C02,C03", "ok-only-after-credssp-completed", "r is Ok ==> cssp::credssp_done(self.written(), r->Ok_0.written())")]))
 
 # ---- x224 negotiation
 A(Item(X224, "enum", "NegotiationType", mod="x224", strip_derive=["TryFromPrimitive"], try_from="u8"))
